@@ -49,6 +49,10 @@ func main() {
 		runC03(*out, *seed, *tier)
 	case "C11":
 		runC11(*out, *seed, *tier)
+	case "C09":
+		runC09(*out, *seed, *tier)
+	case "C10":
+		runC10(*out, *seed, *tier)
 	case "C04":
 		runC04(*out, *seed, *tier)
 	default:
